@@ -85,11 +85,18 @@ def gen_family(rnd, threads: int = 0, nested: bool = False) -> dict | None:
             step["retval"] = value_for(rp if "alias" in rp else {"name": "return", "hint": rp["hint"]}, {"return": base.get("retval")}) if ("alias" in rp or base.get("retval")) else None
         fam["steps"].append(step)
     if nested:
-        # f1's body makes a checked call of f2 with its own (other) values: contexts must not mix
+        # a checked body makes a checked call of f2 with its own (other) values: contexts must not mix.  The caller is
+        # f1 (another function) or f2 itself (recursion); the inner call runs in the same thread or in a joined one.
         funcs[2]["provider"] = None
-        inner = {"fn": "f2", "args": {"y": value_for(funcs[2]["params"][0], base["args"])}, "retval": value_for(funcs[2]["ret"], base["args"])}
+        inner = {"fn": "f2", "args": {"y": value_for(funcs[2]["params"][0], base["args"])}, "retval": value_for(funcs[2]["ret"], base["args"]),
+                 "other_thread": rnd.random() < 0.3}
         fam["inner_steps"] = [inner]
-        funcs[1]["calls_inner"] = {"fn": "f2", "step": 0}
+        caller = funcs[2] if rnd.random() < 0.5 else funcs[1]
+        caller["calls_inner"] = {"fn": "f2", "step": 0}
+        fam["recursive"] = caller is funcs[2]
+        if fam["recursive"] and not any(st.get("fn") == "f2" for st in fam["steps"]):
+            st = {"fn": "f2", "args": {"y": value_for(funcs[2]["params"][0], base["args"])}, "retval": value_for(funcs[2]["ret"], base["args"])}
+            fam["steps"].append(st)
     for f in funcs:
         if f.get("ret") and "hint" in f["ret"]:
             f["ret"] = {"name": "return", "hint": f["ret"]["hint"]}
@@ -128,7 +135,7 @@ def run(tier: str, seed: int, rep: Report, model: Model) -> dict:
     rnd = rng_for("C09", seed)
     n_seq = 150 if tier == "quick" else 1500
     n_thr = 15 if tier == "quick" else 120
-    n_nest = 40 if tier == "quick" else 300
+    n_nest = 80 if tier == "quick" else 600
     rep.rule = ("families of 3 functions sharing 1-4 annotation aliases (optional and not) and a provider (fresh or long-lived dict), random "
                 "decoration order, 4-8 steps (calls conforming / resized / None, provider updates in place or by rebinding); thread runs "
                 "with 8 threads; nested checked calls; distinct = distinct family; non-trivial = an alias is used both with and without | None")
